@@ -22,7 +22,7 @@ from vf.common import CACHE, TREE_HASH, canon, jdump
 from vf.gen import config as GC
 from vf.gen import loads as GL
 
-SCEN_VERSION = "7"
+SCEN_VERSION = "8"
 
 
 def scen_key(cfg, opts=None):
@@ -180,6 +180,7 @@ def run_scenario(cfg, opts=None):
     t0 = time.time()
     rec = {"cfg": cfg, "key": scen_key(cfg, opts), "tree": TREE_HASH}
     loads = GL.make_loads(cfg["loads_desc"])
+    loads_ref = tuple(loads)  # immutable copy: the expectation of the loads table cannot be moved by a tool that edits the list it was handed
     geo = cfg["geometric_constraints"]
     des = cfg["design"]
     tap = SearchTap()
@@ -285,7 +286,7 @@ def run_scenario(cfg, opts=None):
                 "text_lines": {k: next((ln.split()[-1] for ln in mgr.results.text_summary.split("\n") if ln.strip().startswith(k)), None)
                                for k in ("NBH:", "Max HP EFT, C:", "Min HP EFT, C:", "Total Drilling, m:", "Active Borehole Length, m:")},
               }
-              rec["tables"] = table_checks(mgr, loads)
+              rec["tables"] = table_checks(mgr, loads_ref)
             # in-place re-simulation on a deep copy (the monitor must not repair what it observes)
             from ghedesigner.enums import TimestepType
 
